@@ -901,17 +901,19 @@ theorem valuesAt_mem (st : Store) (ids : List Nat) (v : Val) (h : v ∈ valuesAt
   obtain ⟨k, _, hk⟩ := h
   exact ⟨k, hk⟩
 
-/-- pushing to `b` everything `a` has alone or newer makes `b` the merge of both -/
-theorem merge_pushed (U : List Val) (hd : TsDistinct U) (a b : State) (ha : Good U a) (hb : Good U b) :
-    merge (view b.store) (ofList (valuesAt a.store (pushIds a.index b.index))) =
+/-- pushing to `b` everything `a` has alone or newer makes `b` the merge of both (`ids` = any list with
+exactly the ids of the classification) -/
+theorem merge_pushed_ids (U : List Val) (hd : TsDistinct U) (a b : State) (ha : Good U a) (hb : Good U b)
+    (ids : List Nat) (hids : ∀ k, k ∈ ids ↔ k ∈ pushIds a.index b.index) :
+    merge (view b.store) (ofList (valuesAt a.store ids)) =
       merge (view b.store) (view a.store) := by
   funext k
   unfold merge
   rw [ofList_valuesAt a.store ha.filed]
-  by_cases hk : k ∈ pushIds a.index b.index
+  by_cases hk : k ∈ ids
   · simp [hk]
   · simp only [hk, if_false, maxO_none_right]
-    rw [mem_pushIds] at hk
+    rw [hids, mem_pushIds] at hk
     rw [ha.cons.1 k, hb.cons.1 k] at hk
     unfold indexOf at hk
     unfold view
@@ -941,6 +943,11 @@ theorem merge_pushed (U : List Val) (hd : TsDistinct U) (a b : State) (ha : Good
               (by rw [hb.filed _ _ hlb, ha.filed _ _ hla]) h1
             simp [h1, hv]
         · rfl
+
+theorem merge_pushed (U : List Val) (hd : TsDistinct U) (a b : State) (ha : Good U a) (hb : Good U b) :
+    merge (view b.store) (ofList (valuesAt a.store (pushIds a.index b.index))) =
+      merge (view b.store) (view a.store) :=
+  merge_pushed_ids U hd a b ha hb _ (fun _ => Iff.rfl)
 
 theorem filter_acceptable_of_authentic (st : Store) (h : Authentic st) (ids : List Nat) :
     (valuesAt st ids).filter acceptable = valuesAt st ids := by
@@ -994,5 +1001,50 @@ theorem chunks_mem {α : Type} (n : Nat) (fuel : Nat) (l : List α) (h : l.lengt
     (hb : b ∈ chunks n fuel l) (x : α) (hx : x ∈ b) : x ∈ l := by
   rw [← chunks_flatten n fuel l h]
   exact List.mem_flatten.2 ⟨b, hb, hx⟩
+
+/-- the index is a function of the contents -/
+theorem index_of_view_eq (s t : State) (hs : Consistent s) (ht : Consistent t)
+    (h : view s.store = view t.store) : ∀ k, lookup s.index k = lookup t.index k := by
+  intro k
+  rw [hs.1 k, ht.1 k]
+  have := congrFun h k
+  unfold view at this; unfold indexOf
+  cases h1 : lookup s.store k <;> cases h2 : lookup t.store k <;> simp [h1, h2, entryOf] at this ⊢
+  exact congrArg headOf this.1
+
+/-- one fault-free exchange driven by ANY two id lists that contain exactly the ids of the
+classification (order and multiplicity are irrelevant) -/
+theorem exchangeIds_equalises (U : List Val) (hd : TsDistinct U) (a b : State)
+    (ha : Good U a) (hb : Good U b) (haa : Authentic a.store) (hab : Authentic b.store)
+    (push pull : List Nat)
+    (hpush : ∀ k, k ∈ push ↔ k ∈ pushIds a.index b.index)
+    (hpull : ∀ k, k ∈ pull ↔ k ∈ pullIds a.index b.index) :
+    view (exchangeIds .none push pull a b).1.store = merge (view a.store) (view b.store) ∧
+    view (exchangeIds .none push pull a b).2.store = merge (view a.store) (view b.store) ∧
+    Good U (exchangeIds .none push pull a b).1 ∧ Good U (exchangeIds .none push pull a b).2 ∧
+    (∀ k, lookup (exchangeIds .none push pull a b).1.index k = lookup (exchangeIds .none push pull a b).2.index k) := by
+  have hpushU : ∀ v ∈ valuesAt a.store push, v ∈ U := by
+    intro v hv; obtain ⟨k, hk⟩ := valuesAt_mem _ _ v hv; exact ha.rows k v hk
+  have hpullU : ∀ v ∈ valuesAt b.store pull, v ∈ U := by
+    intro v hv; obtain ⟨k, hk⟩ := valuesAt_mem _ _ v hv; exact hb.rows k v hk
+  have hB : view (exchangeIds .none push pull a b).2.store = merge (view a.store) (view b.store) ∧
+      Good U (exchangeIds .none push pull a b).2 := by
+    simp only [exchangeIds]
+    refine ⟨?_, setRaw_good U .none _ b hb hpushU⟩
+    rcases setRaw_view U hd .none _ b hb hpushU with ⟨h1, _⟩ | ⟨_, h2⟩
+    · exact absurd h1 (setRaw_none_ne_err _ b)
+    · rw [h2, filter_acceptable_of_authentic a.store haa, merge_pushed_ids U hd a b ha hb push hpush, merge_comm]
+  have hA : view (exchangeIds .none push pull a b).1.store = merge (view a.store) (view b.store) ∧
+      Good U (exchangeIds .none push pull a b).1 := by
+    simp only [exchangeIds]
+    have hch : ∀ c ∈ chunks (applyBatchSize - 1) (valuesAt b.store pull).length (valuesAt b.store pull),
+        ∀ v ∈ c, v ∈ U :=
+      fun c hc v hv => hpullU v (chunks_mem _ _ _ (Nat.le_refl _) c hc v hv)
+    have := foldl_setRaw_view U hd _ a ha hch
+    refine ⟨?_, this.2⟩
+    rw [this.1, chunks_flatten _ _ _ (Nat.le_refl _), filter_acceptable_of_authentic b.store hab]
+    exact merge_pushed_ids U hd b a hb ha pull hpull
+  refine ⟨hA.1, hB.1, hA.2, hB.2, ?_⟩
+  exact index_of_view_eq _ _ hA.2.cons hB.2.cons (hA.1.trans hB.1.symm)
 
 end AnySync.KV
